@@ -467,12 +467,27 @@ def predict_bounded_instance():
     def call(inp):
         rng = np.random.RandomState(inp['seed'])
         kind, K, D = inp['kind'], inp['K'], inp['D']
-        F, T, Ed = 2, 5, 3
+        F, T, Ed = [2, 3, 1][(inp['seed'] // 3) % 3], 5, 3           # the number of bins equals the number of classes or not
         cplx = kind not in ('gmm', 'vmfmm')
         y = rng.normal(size=(F, T, D)) + (1j * rng.normal(size=(F, T, D)) if cplx else 0)
         if kind != 'gmm':
             y = y * 10.0 ** rng.uniform(-140, 140, size=(F, T, 1))          # any magnitude (1e-150..1e150): only the direction matters
         emb = rng.normal(size=(F, T, Ed)) * rng.uniform(0.2, 3.0, size=(F, T, 1)) + rng.normal(size=Ed)
+        # the memory layout of the caller's tensors is arbitrary: C order, Fortran order, the transposed view of a (D, T, F) STFT,
+        # a strided slice of a larger buffer -- the values (and therefore the reference below) are the same
+        layout = ['C', 'F', 'T', 'strided'][(inp['seed'] // 7) % 4]
+
+        def relayout(a):
+            if layout == 'F':
+                return np.asfortranarray(a)
+            if layout == 'T':
+                return np.ascontiguousarray(a.transpose(2, 1, 0)).transpose(2, 1, 0)
+            if layout == 'strided':
+                big = np.zeros(a.shape[:-1] + (2 * a.shape[-1],), dtype=a.dtype)
+                big[..., ::2] = a
+                return big[..., ::2]
+            return a
+        y, emb = relayout(y), relayout(emb)
         integration = kind in ('gcacgmm', 'vmfcacgmm')
         # mixture weights in the layout of a tying option
         wca = [(-1,), (-3,), (-3, -1), (-3, -2, -1)][inp['wl']] if integration else [(-1,), (-3,), (-3, -1), (-1,)][inp['wl']]
